@@ -742,6 +742,8 @@ impl<F: Read + Write + Seek> Package<F> {
         if !self.tables.contains_key(table_name) {
             not_found!("Table {:?} does not exist", table_name);
         }
+        // Release the strings held by the table's rows.
+        self.delete_rows(Delete::from(table_name))?;
         let stream_name = self.tables.get(table_name).unwrap().stream_name();
         if self.comp().exists(&stream_name) {
             self.comp_mut().remove_stream(&stream_name)?;
